@@ -27,7 +27,7 @@ CLAIMS.update({
     ),
     "C06": (
         "add_alt / add_alt_err are proved to implement the priority rule (later replaces, equal merges, earlier kept; zero-sized fast paths leave an error); every combinator proved leaves as pending error exactly the furthest of the offers made inside it and the one pending at entry, merged at equal positions (Offers specification); error construction sites report a truthful span and found token; the max-fold lemmas (Verus) lift this to whole grammars.",
-        _A + " The library's own error types are under contract too (Rich/Simple/Cheap/EmptyErr: expected_found, merge_expected_found = union / user error preserved, replace_expected_found, same span for all three; bounded number of expectations per error); Rich::merge (flat_merge) exhausts the solver's memory and is not proved. filter()'s found token and collect_exactly's silent failure are recorded findings.",
+        _A + " The library's own error types are under contract too (Rich/Simple/Cheap/EmptyErr: expected_found, merge_expected_found = union / user error preserved, replace_expected_found, same span for all three; bounded number of expectations per error); Rich::merge is verified by Verus on the extracted function to keep the span of the pending error (flat_merge an assumed callee; what flat_merge lists is not proved: it exhausts CBMC's memory and is outside Verus). filter()'s found token and collect_exactly's silent failure are recorded findings.",
         "DESIGN 4/C06",
     ),
     "C07": (
